@@ -1,6 +1,7 @@
 package gose
 
 import (
+	"path/filepath"
 	"crypto/sha256"
 	"encoding/hex"
 	"fmt"
@@ -27,11 +28,64 @@ type Program struct {
 	Fset  *token.FileSet
 	Files map[string][]byte // source cache for hashing
 	LoadS float64
+	Dropped []string // harness files left out because they do not compile against this tree
 }
 
 // Load builds SSA for the scipipe packages with overlay harness files.
 // overlay maps virtual file path (under repoDir) -> contents.
+// Load loads the packages with the harness overlay. A harness file that does not compile
+// against the current tree (it names an unexported identifier that a change removed or
+// renamed) is dropped from the overlay and the load is repeated, so that one such file
+// takes down only the checks that need its harnesses, not every check of the package.
+// The dropped files are listed in Program.Dropped.
 func Load(repoDir string, overlay map[string][]byte, patterns ...string) (*Program, error) {
+	var dropped []string
+	for attempt := 0; ; attempt++ {
+		p, err := loadOnce(repoDir, overlay, patterns...)
+		if err == nil {
+			p.Dropped = dropped
+			return p, nil
+		}
+		if attempt >= 4 {
+			return nil, err
+		}
+		// which harness files do the errors point at?
+		bad := map[string]bool{}
+		for _, line := range strings.Split(err.Error(), "\n") {
+			i := strings.Index(line, "zz_verif_")
+			if i < 0 {
+				continue
+			}
+			j := strings.Index(line[i:], ".go")
+			if j < 0 {
+				continue
+			}
+			base := line[i : i+j+3]
+			for k := range overlay {
+				if filepath.Base(k) == base && strings.HasPrefix(line, k) {
+					bad[k] = true
+				}
+			}
+		}
+		// the vocabulary file cannot be dropped
+		n := 0
+		no := map[string][]byte{}
+		for k, v := range overlay {
+			if bad[k] && !strings.HasSuffix(k, "zz_verif_vx.go") {
+				dropped = append(dropped, k)
+				n++
+				continue
+			}
+			no[k] = v
+		}
+		if n == 0 {
+			return nil, err
+		}
+		overlay = no
+	}
+}
+
+func loadOnce(repoDir string, overlay map[string][]byte, patterns ...string) (*Program, error) {
 	t0 := time.Now()
 	if len(patterns) == 0 {
 		patterns = []string{".", "./components", "./cmd/scipipe"}
